@@ -39,6 +39,7 @@ type World struct {
 	DB     fs_db.DB
 	C      *di.Container
 	Ctx    context.Context
+	Link   any // the simulated gRPC link, if one was created
 }
 
 var worldCounter int
